@@ -511,7 +511,12 @@ def run_class(ctx, res, prop, cname, directed, floor_direct, skip=()):
             check_coarse(repo, eng, res, prop, cname, fi)
             res.info.append({"coarse_rule_only": f"{cname}.{mname}", "reason": COARSE[mname]})
             continue
-        paths += analyse_method(repo, res, prop, cname, fi, directed, writer_names)
+        try:
+            paths += analyse_method(repo, res, prop, cname, fi, directed, writer_names)
+        except AnalysisError as e:
+            # the other writer methods and the other rules of the property are still decided; the run ends as
+            # analysis-error (exit 2) unless one of them finds a violation
+            res.refusals.append(str(e))
     res.floor(f"direct writer methods of {cname}", n, floor_direct if not ctx.only else 0)
     res.counters[f"indirect writer methods of {cname}"] = len(indirect)
     res.counters["method x valuation walks"] = res.counters.get("method x valuation walks", 0) + paths
@@ -615,7 +620,10 @@ def run_class_with_helpers(ctx, res, prop, cname, directed, floor_direct, skip=(
         if mname in direct:
             n += 1
         trusted = contracts.get(mname, ()) if (mname.startswith("_") and not mname.startswith("__")) else ()
-        paths += analyse_method(repo, res, prop, cname, fi, directed, writer_names, trusted=trusted)
+        try:
+            paths += analyse_method(repo, res, prop, cname, fi, directed, writer_names, trusted=trusted)
+        except AnalysisError as e:
+            res.refusals.append(str(e))
     res.floor(f"direct writer methods of {cname}", n, floor_direct if not ctx.only else 0)
     res.counters["method x valuation walks"] = res.counters.get("method x valuation walks", 0) + paths
     res.extra.setdefault("direct_writers", {})[cname] = sorted(direct)
